@@ -41,6 +41,46 @@ def native_frac(kind, x0, y0, dx, dy, use_exact, n, params):
     return cnt / (n * n)
 
 
+# ---- the definition behind FRAC for use_exact = 0, used ("revealed") only where the kernels themselves are verified
+def sample_point(x0, y0, dx, dy, n, a, b):
+    """centre of sub-cell (a, b) of the n x n regular subdivision of the pixel [x0, x0+dx] x [y0, y0+dy]"""
+    return x0 + (a + 0.5) * dx / n, y0 + (b + 0.5) * dy / n
+
+
+def sample_inside(kind, params, x0, y0, dx, dy, n, a, b):
+    p = sample_point(x0, y0, dx, dy, n, a, b)
+    return inside(kind, params, p[0], p[1])
+
+
+def col_count(kind, params, x0, y0, dx, dy, n, a, b):
+    """number of member samples among (a, 0) .. (a, b-1): primitive recursion on b, given by its defining equations at b"""
+    if not vprim.SYMBOLIC:
+        return sum(1 for t in range(b) if sample_inside(kind, params, x0, y0, dx, dy, n, a, t))
+    c = vprim.uf('colcnt_' + kind, 'int', x0, y0, dx, dy, n, a, b, *params)
+    vprim.fact(vprim.uf('colcnt_' + kind, 'int', x0, y0, dx, dy, n, a, 0, *params) == 0)
+    if not (isinstance(b, int) and b <= 0):
+        prev = vprim.uf('colcnt_' + kind, 'int', x0, y0, dx, dy, n, a, b - 1, *params)
+        vprim.fact(vprim.implies(b >= 1, c == prev + vprim.ite(sample_inside(kind, params, x0, y0, dx, dy, n, a, b - 1), 1, 0)))
+    return c
+
+
+def tot_count(kind, params, x0, y0, dx, dy, n, a):
+    """number of member samples in columns 0 .. a-1 (n samples each)"""
+    if not vprim.SYMBOLIC:
+        return sum(col_count(kind, params, x0, y0, dx, dy, n, t, n) for t in range(a))
+    c = vprim.uf('totcnt_' + kind, 'int', x0, y0, dx, dy, n, a, *params)
+    vprim.fact(vprim.uf('totcnt_' + kind, 'int', x0, y0, dx, dy, n, 0, *params) == 0)
+    if not (isinstance(a, int) and a <= 0):
+        prev = vprim.uf('totcnt_' + kind, 'int', x0, y0, dx, dy, n, a - 1, *params)
+        vprim.fact(vprim.implies(a >= 1, c == prev + col_count(kind, params, x0, y0, dx, dy, n, a - 1, n)))
+    return c
+
+
+def sampled_fraction(kind, params, x0, y0, dx, dy, n):
+    """FRAC(kind, x0, y0, dx, dy, 0, n, params): the fraction of the n x n sub-sample centres that are members of the shape"""
+    return tot_count(kind, params, x0, y0, dx, dy, n, n) / (n * n)
+
+
 def close(a, b):
     if vprim.SYMBOLIC:
         return a == b
